@@ -105,6 +105,17 @@ theorem progress {v : Variant} {f n : Nat} {s : St} (hf : 0 < f) (h : Reach v f 
   | none => rw [hs] at hen; cases hen
   | some s' => exact ⟨l, s', hsp, hs⟩
 
+/-- the same in terms of the enabled sets the trace acceptor compares with the harness's runnable
+    set at every step: before dsh() has returned the dispatcher or some worker of a target is enabled
+    (so a run of the real code that the acceptor accepts cannot be deadlocked without a mismatch) -/
+theorem progress_enabled {v : Variant} {f n : Nat} {s : St} (hf : 0 < f) (h : Reach v f n s) (hnf : ¬ Final s) :
+    dEnabled s = true ∨ ∃ i, i < n ∧ wEnabled s i = true := by
+  obtain ⟨l, s', hsp, hs⟩ := progress hf h hnf
+  have hen := enabled_of_step hsp (by rw [hs]; rfl)
+  cases l with
+  | d a => exact Or.inl hen
+  | w i a => exact Or.inr ⟨i, by rw [← (reach_params h).2.2]; exact hen.2, hen.1⟩
+
 /-- a state in which no non-spurious operation is enabled is a state in which dsh() has returned -/
 theorem stuck_is_final {v : Variant} {f n : Nat} {s : St} (hf : 0 < f) (h : Reach v f n s)
     (hstuck : ∀ l, l.spurious = false → step s l = none) : Final s := by
